@@ -958,7 +958,7 @@ class Constant(Term):
         Returns:
              $\mu(x) = k$
         """
-        y = np.full_like(x, fill_value=self.value)
+        y = np.full_like(x, fill_value=self.value, dtype=settings.float_type)
         return y
 
     def parameters(self) -> str:
